@@ -83,11 +83,12 @@ def run(ctx, chk):
             conds = [c for c in conds if c[0] not in ("inloop", "fact")]
             # "the iterated collection is not empty" holds in every iteration over it
             conds = [c for c in conds
-                     if f_show(cn.formula(c)) not in {f"0<len({it_})" for it_ in iters}]
+                     if f_show(cn.formula(c)) not in {f"0<len({it_})" for it_ in iters}
+                     | {f"0<len(list({it_}))" for it_ in iters}]
             ev = locs.get(obj)
             per_addr.setdefault(cls, []).append((iters, conds, obj, ev if ev is not None
                                                  else s.events[0]))
-    AS = "list(scenario.scenario_dict['host'])"
+    AS = "scenario.scenario_dict['host']"      # (iterating list(D) is iterating D)
     want_iters = {"ServiceScan": [AS], "OSScan": [AS], "SubnetScan": [AS], "ProcessScan": [AS],
                   "Exploit": [AS, "scenario.scenario_dict['exploits']"],
                   "PrivilegeEscalation": [AS, "scenario.scenario_dict['privilege_escalation']"]}
